@@ -21,7 +21,14 @@ verus! {
 /// `str` (rule R15)
 #[verifier::external_body]
 pub struct Str { _p: () }
-impl Str { pub uninterp spec fn bytes(&self) -> Seq<u8>; }
+impl Str {
+    pub uninterp spec fn bytes(&self) -> Seq<u8>;
+    /// str::trim_end_matches(char): SOME prefix of the string (how much is trimmed is not modelled)
+    #[verifier::external_body]
+    pub fn trim_end_matches(&self, c: char) -> (r: &Str)
+        ensures r.bytes().len() <= self.bytes().len(), r.bytes() == self.bytes().subrange(0, r.bytes().len() as int),
+    { unimplemented!() }
+}
 
 pub trait Host: Sized + 'static {
     spec fn spec_hostname(&self) -> Seq<u8>;
